@@ -1,6 +1,7 @@
 package checks
 
 import (
+	"encoding/binary"
 	"fmt"
 	"github.com/ethereum/go-ethereum/common"
 	"github.com/ethereum/go-ethereum/core/types/goattypes"
@@ -9,6 +10,7 @@ import (
 	"strings"
 	"time"
 
+	bitcointypes "github.com/goatnetwork/goat/x/bitcoin/types"
 	relayertypes "github.com/goatnetwork/goat/x/relayer/types"
 
 	"verif/harness/vc"
@@ -532,6 +534,33 @@ func c01History(c *vc.Ctx, n, hist int) {
 				if ok1 && ok2 {
 					items = append(items, item{k2, fv, forged, pre})
 					c.Count("transactions_with_a_genuine_and_a_forged_vote", 1)
+				}
+			}
+		}
+		// directed: a genuine quorum for one processing proposal offered for another one that differs only in where the id
+		// list ends and the transaction begins (ids [a.., x] + tx T[8:] signed; ids [a..] + tx T submitted, x = first eight
+		// bytes of T read as an id): the signed payload must separate its variable-length parts
+		if len(items) < 12 {
+			if pm, ok := env.m.payload("process", g.Proposer.AddrStr, 3+7*round); ok {
+				if sub, isProc := pm.(*bitcointypes.MsgProcessWithdrawal); isProc && len(sub.NoWitnessTx) > 40 {
+					signed := &bitcointypes.MsgProcessWithdrawal{Proposer: sub.Proposer, TxFee: sub.TxFee,
+						Id:          append(append([]uint64{}, sub.Id...), binary.LittleEndian.Uint64(sub.NoWitnessTx[:8])),
+						NoWitnessTx: append([]byte{}, sub.NoWitnessTx[8:]...)}
+					var signers []*world.Member
+					signers = append(signers, g.Proposer)
+					for _, qi := range q {
+						if g.Voters[qi] != nil {
+							signers = append(signers, g.Voters[qi])
+						}
+					}
+					vctx := world.VoteCtx{ChainID: env.c.W.Cfg.ChainID, Proposer: g.Proposer.AddrStr, Seq: g.Seq, Epoch: g.Epoch}
+					if vote, err := world.MakeVote(signed, vctx, signers, world.Bitmap(q, bytesFor(q))); err == nil && len(signers) == len(q)+1 {
+						vote.Sequence, vote.Epoch = g.Seq, g.Epoch
+						setVote(sub, vote)
+						fv := voteVariant{Class: "vote-for-a-payload-split-elsewhere", Marks: q, NBytes: bytesFor(q), Signers: append([]int{-1}, q...), Doc: "payload", Sig: "aggregate", Expect: mustFail}
+						items = append(items, item{"process", fv, sub, nil})
+						c.Count("votes_for_a_payload_split_elsewhere", 1)
+					}
 				}
 			}
 		}
